@@ -185,6 +185,7 @@ def r3_channels(ctx, rep, R='C02.R3'):
     from . import c04
     c04.r1_r2_escape(ctx, rep, R1=R, R2=R)
     c04.r3_recorder(ctx, rep, R=R)
+    c04.errors_chain(ctx, rep, R)
     # NotImplementedError from tearDown is not an error: the handler does not record
     td = m.func('runner.tear_down_unneeded')
     gt = ctx.cfg(td)
